@@ -124,6 +124,55 @@ def h_init_merge(ctx):
         shutil.rmtree(d, True)
 
 
+# (user-written config text under the DOCUMENTED name, command, trigger file name, trigger text or catalogue name)
+BEHAVIOURS = {
+    "collection-pipeline-min-continues": ("collection-pipeline:\n  min_continues: 3\n", "pipeline", "pipeline.py"),
+    "collection_pipeline-disabled": ("collection_pipeline:\n  enabled: false\n", "pipeline", "pipeline.py"),
+    "improper-logging-disabled": ("improper-logging:\n  enabled: false\n", "print-statements", "printy.py"),
+    "print-statements-disabled": ("print-statements:\n  enabled: false\n", "print-statements", "printy.py"),
+    "magic-numbers-allowed": ("magic-numbers:\n  allowed_numbers: [3975]\n", "magic-numbers", "magic.py"),
+    "nesting-limit": ("nesting:\n  max_nesting_depth: 9\n", "nesting", "nest.py"),
+    "srp-disabled": ("srp:\n  enabled: false\n", "srp", "srp.py"),
+    "method_property-disabled": ("method_property:\n  enabled: false\n", "method-property", "methprop.py"),
+    "stateless-class-disabled": ("stateless-class:\n  enabled: false\n", "stateless-class", "stateless.py"),
+    "unwrapped-placement-rule": ("global_deny:\n  - pattern: '.*\\.tmp$'\n    reason: no temp files\n", "file-placement", "junk.tmp"),
+    "wrapped-placement-rule": ("file-placement:\n  global_deny:\n    - pattern: '.*\\.tmp$'\n      reason: no temp files\n", "file-placement", "junk.tmp"),
+}
+
+
+def h_init_behaviour(ctx):
+    """What a linter reports under the user's configuration is the same before and after init-config (without --force)."""
+    which = ctx.pick("user_setting", tuple(BEHAVIOURS))
+    preset = ctx.pick("preset", ("standard", "strict", "lenient"))
+    text, cmd, fname = BEHAVIOURS[which]
+    d = Path(tempfile.mkdtemp(prefix="c20b-"))
+    try:
+        (d / ".git").mkdir()
+        (d / ".thailint.yaml").write_text(text)
+        (d / fname).write_text(triggers.T[fname][3] if fname in triggers.T else "scratch\n")
+
+        def findings():
+            r = _invoke([cmd, "--format", "json", fname], d)
+            try:
+                doc = json.loads(r.output[r.output.index("{"):])
+                return r.exit_code, sorted((v["rule_id"], v["line"], v["message"]) for v in doc["violations"])
+            except (ValueError, KeyError):
+                return r.exit_code, r.output[-200:]
+        before = findings()
+        r = _invoke(["init-config", "--non-interactive", "--preset", preset], d)
+        after = findings()
+        # control: without the user's setting the run differs (the setting does something)
+        (d / ".thailint.yaml").write_text("# nothing\n")
+        default = findings()
+    finally:
+        shutil.rmtree(d, True)
+    ctx.note("user_setting", which)
+    ctx.cover("setting-matters" if default != before else "setting-inert")
+    ctx.require("init-config-succeeds", r.exit_code == 0, out=r.output[-200:])
+    ctx.require("the-user-setting-changes-the-run", default != before, setting=which, before=before)
+    ctx.require("findings-same-before-and-after-init-config", before == after, setting=which, before=before, after=after)
+
+
 VALUES = {
     "log_level": (("DEBUG", True), ("WARNING", True), ("debug", False), ("LOUD", False), ("", False)),
     "output_format": (("json", True), ("yaml", True), ("xml", False), ("TEXT", False)),
@@ -229,6 +278,10 @@ def obligations(tier):
                       "config_parser.parse_config_file/_normalize_config_keys"],
            bounds="forked: every subset of 6 user sections x hyphen/underscore spelling of each x 3 presets x 4 kinds of extra user content; init-config run twice",
            timeout=900, workers=14, must_cover=("merged", "empty-existing")),
+        Ob(name="K1b-behaviour-unchanged-by-init-config", engine="pathex", harness=h_init_behaviour,
+           functions=["thailint init-config (merge)", "each linter's section lookup (documented and alternative section names)", "thailint <command> --format json"],
+           bounds="forked: %d user settings written under the documented (or an accepted alternative) section name x 3 presets; the linter's findings before vs after the merge" % len(BEHAVIOURS),
+           timeout=600, workers=14, must_cover=("setting-matters",)),
         Ob(name="K3-config-set-get", engine="pathex", harness=h_config_set,
            functions=["cli.config.config_set/_convert_value_type/_validate_and_report_errors/_save_and_report_success/config_get", "src.config.load_config/save_config/validate_config",
                       "cli.main.cli (config loading)"],
